@@ -1526,3 +1526,6 @@ MA('C09', 'left scalar multiple declares the signed Lipschitz constant', 'odl/so
    'Functional.__init__(self, space=func.domain, linear=func.is_linear, grad_lipschitz=np.abs(scalar) * func.grad_lipschitz)',
    'Functional.__init__(self, space=func.domain, linear=func.is_linear, grad_lipschitz=scalar * func.grad_lipschitz)',
    'FunctionalLeftScalarMult:grad_lipschitz')
+M('C12', 'Kaczmarz takes the relaxation parameter by sweep position', 'odl/solvers/iterative/iterative.py',
+  "            x.lincomb(1, x, -omega[i], tmp_dom)",
+  "            x.lincomb(1, x, -omega[list(rng).index(i)], tmp_dom)", 'C12-R7')
